@@ -329,7 +329,8 @@ def c13(run):
 def c19(run):
     th = run.tier == "thorough"
     names = ["b3f", "q3n", "b3l2"] + (["b4", "q4", "q4l", "q4t", "q3", "q3l"] if th else [])
-    wrapper_pipeline(run, "C19", names, [], {"gate", "starved", "lostwake", "early"}, random_n=4000 if th else 800, extra_invs=LIVE, handoff=True,
+    # a token that nobody holds and nobody gives back is capacity the pool never serves again: conservation counts for C19 too
+    wrapper_pipeline(run, "C19", names, [], {"gate", "starved", "lostwake", "early", "conserve"}, random_n=4000 if th else 800, extra_invs=LIVE, handoff=True,
                      temporal=("WakeUp",), serve=True)
 
 
@@ -632,7 +633,7 @@ def limits_pipeline(run, prop, classes, twin=False, aimd=True, vegas=True):
         functions_part(run, prop, indir)
     if aimd:
         # exact AIMD model: design check + every transition replayed on the real AIMDLimit
-        for name, c in {"half": (1, 2, 1, 10, 60 if th else 40), "seven8": (7, 8, 2, 3, 60 if th else 40), "one": (1, 1, 1, 5, 30), "nine10": (9, 10, 1, 10, 40)}.items():
+        for name, c in {"half": (1, 2, 1, 10, 60 if th else 40), "seven8": (7, 8, 2, 3, 60 if th else 40), "one": (1, 1, 1, 5, 30), "nine10": (9, 10, 1, 10, 40), "quarter": (1, 4, 1, 10, 40)}.items():
             r = run.tlc("Aimd", name + ".cfg", cfg_text=aimd_cfg(*c), label="mc+gen:Aimd/" + name)
             if r.error or not r.ok:
                 raise Machinery("TLC %s: %s %s\n%s" % (r.label, r.error, r.violation, r.raw[-3000:]))
@@ -1007,6 +1008,17 @@ def c20(run):
             return {"kind": "default", "what": "limit gauge"}
         return None
     limiter_pipeline(run, "C20", lambda m: {"kind": "default", "what": "emission"} if _res_field_differs(m, "inflight") else None, lim_rj, graphs=th)
+    # the queue limiter's queue_size gauge against the callers actually blocked, in the real-time hand-off / give-up / arrival
+    # races (the stable-state rejection "size" of WrapperTrace)
+    gauge_rejects = []
+    handoff_race(run, "C20", set(), gauge_rejects)
+    seen = set()
+    for rj in gauge_rejects:
+        if rj["class"] == "backlog" and rj.get("p") == "size" and rj["_stack"] not in seen:
+            seen.add(rj["_stack"])
+            run.report("queue limiter (%s scenario %s): the queue_size gauge reports %s while %s callers are blocked" % (
+                rj["_stack"], rj["trace"], (rj.get("obs") or {}).get("q"), sum(1 for v in ((rj.get("obs") or {}).get("procs") or {}).values() if v == "blocked")),
+                {"reject": rj, "rerun": "bin/check C20"}, {"kind": "queue", "what": "queue_size gauge"})
     # partitioned strategies: a grant emits one in-flight sample tagged with the partition charged, valued at its count
     partition_pipeline(run, "C20", lambda kind, m: {"kind": kind, "what": "partition sample"}, graphs=th, samples=True)
     # free-running goroutines: the in-flight sample of every acquire is the count at its linearisation point
@@ -1027,8 +1039,8 @@ def c14(run):
     run.states += r.distinct
     run.transitions += r.generated
     cases = r.json_prints("CASE")
-    if len(cases) != 1152:
-        raise Machinery("GrpcMC enumerated %d cases, expected the full product of 1152" % len(cases))
+    if len(cases) != 3456:
+        raise Machinery("GrpcMC enumerated %d cases, expected the full product of 3456" % len(cases))
     indir = os.path.join(run.scratch, "in")
     os.makedirs(indir, exist_ok=True)
     vlib.write_ndjson(os.path.join(indir, "grpc_cases.ndjson"), cases)
@@ -1205,6 +1217,7 @@ def c01(run):
     run.events += total
     run.traces += att["scenarios"]
     handle_rejects(run, "C01", rejects, tp, {"gate", "early", "conserve"}, "attack", all_rejects)
+    completion_overlap(run, "C01", {"gate", "early"})
     # gate-serialised schedules of wrappers over the real DefaultLimiter (every delegate attempt checked)
     wrapper_pipeline(run, "C01", ["b3l2", "q2"] + (["q3", "b4", "q4t"] if th else []), [], {"gate"}, random_n=1500 if th else 200)
     # free-running concurrency, linearisability
@@ -1221,9 +1234,23 @@ def c01(run):
                         "stress histories depend on the Go scheduler; they are a sample, the attack schedule is deterministic"]
 
 
+def completion_overlap(run, prop, classes):
+    """Real time: an Acquire overlapping a completion of another token of the same DefaultLimiter (completions do not take the
+    limiter's lock): never refused with room (C01), gauge and strategy count back to the tokens out once quiet (C02)."""
+    out, _ = run.go("^TestCompletionOverlap$", timeout=300)
+    info = json.load(open(os.path.join(out, "overlap.json")))
+    run.extra["completion_overlap_scenarios"] = info["scenarios"]
+    tp = os.path.join(out, "overlap_trace.ndjson")
+    rejects, total = validate_sharded(run, "WrapperTrace", "Wrapper_trace.cfg", tp)
+    run.events += total
+    run.traces += info["scenarios"]
+    handle_rejects(run, prop, rejects, tp, classes, "completion-overlap", [])
+
+
 def c02(run):
     th = run.tier == "thorough"
     wrapper_pipeline(run, "C02", ["b3l2", "q3s", "d2", "b2c"] + (["q3", "q3l", "q4t", "b3p", "d3"] if th else []), [], {"conserve"}, random_n=2000 if th else 300, handoff=True)
+    completion_overlap(run, "C02", {"conserve"})
 
     def lim_mm(m):
         return {"kind": "default", "what": "counts"}
